@@ -133,6 +133,9 @@ def run(R):
     common.typed_stack_elements(R, ro, "C18.TOTAL")
     link_recursion(R, ro, "C18.STACK-LIST")
     no_user_comparison(R, allm, "C18.TOTAL")
+    format_error_total(R, "C18.TOTAL")
+    common.dependency_elements_typed(R, ro, "C18.TOTAL")
+    frame_of_failure(R, ro, "C18.STACK-LIST")
     # dump methods: what they format goes through the containing converters, and user hooks (get_priority) are contained
     from .c20 import diag_conversions
     diag_conversions(R, ro, "C18.TOTAL")
@@ -916,3 +919,67 @@ def no_user_comparison(R, allm, rule):
                     "test (`is`) does not" % (f.qualname, q.src(node)[:50], "__eq__" if isinstance(ops[0], (ast.Eq, ast.NotEq)) else "comparison method"))
     if not n:
         R.ok(rule, "asynq/", "no diagnostic method compares a stored value or error by ==, <, in")
+
+
+def format_error_total(R, rule):
+    """format_error accepts any exception: what it passes to traceback.format_exception as the traceback is the `tb` argument or
+    the attribute asynq stamps (`_traceback`) - the latter only when it really is a traceback object, because the attribute name is
+    not asynq's alone (an RPC error carrying the remote traceback as text)."""
+    f = R.repo.fn("debug.format_error")
+    ps = q.param_names(f.node)
+    ep, tbp = ps[0], ps[1]
+    cfg = cfg_of(f)
+    uses = [n for n, c in kit.call_sites(f, lambda c: (q.call_name(c) or "").endswith("format_exception") and len(c.args) >= 3)]
+    reads = [n for n in cfg.nodes if n.kind == "stmt" and any(isinstance(x, ast.Attribute) and x.attr == "_traceback" and isinstance(x.ctx, ast.Load)
+                                                             and isinstance(x.value, ast.Name) and x.value.id == ep for e_ in kit.node_exprs(n) for x in ast.walk(e_))]
+
+    def checked(nd):
+        if nd.kind != "test":
+            return None
+        k_, s_, pos_ = q.atom_test(nd.ast)
+        if k_ == "isinstance" and "TracebackType" in s_[1]:
+            return "T" if pos_ else "F"
+        return None
+    ok = True
+    px = None
+    if reads:
+        # from the read of the attribute to its use as a traceback: through the kind test's true edge, or through a rebinding to None
+        clears = [n for n in cfg.nodes if n.kind == "stmt" and isinstance(n.ast, ast.Assign) and any(q.src(t) == tbp for t in n.ast.targets) and q.is_none(n.ast.value)]
+        has_test = bool(kit.guard_edges_exist(cfg, checked))
+        for r_ in reads:
+            after = [e.dst for e in cfg.out_edges(r_.id, N)]
+            tests_ = [x for x in cfg.nodes if checked(x) is not None]
+            px = cfg.find_path(after, uses, N, cut_nodes=tests_)
+            if px is not None or not has_test:
+                ok = False
+    R.check(ok and bool(uses), rule, f.qualname + ":foreign-traceback", R.site(f),
+            "error._traceback is used as a traceback only after a test that it is one",
+            "format_error hands whatever `%s._traceback` holds to traceback.format_exception: an exception class with a _traceback attribute of its own "
+            "(remote traceback text) makes format_error - and dump_error, the exception hook, the logging formatter - raise AttributeError" % ep,
+            cfg.fmt_path(px) if px else None)
+
+
+def frame_of_failure(R, ro, rule):
+    """format_asynq_stack() shows, for a task that has failed, the line of *its own* body at which it failed or let an error through.
+    When an error was thrown into the generator, the stepper has recorded the generator's frame (the yield that received it) before
+    the throw; the generic handler takes the innermost frame of the traceback only when nothing was recorded - for an error that came
+    from further down, that innermost frame belongs to whoever raised it, not to this task."""
+    step = ro.generator_step_fn()
+    cfg = cfg_of(step)
+    stores = [n for n in kit.store_nodes(step, "_frame") if any(isinstance(a, ast.ExceptHandler) for a in q.ancestors(n.ast))]
+    R.need(stores, "idiom: the stepper's handler no longer records the failing frame")
+
+    def unset(nd):
+        if nd.kind != "test":
+            return None
+        k_, s_, pos_ = q.atom_test(nd.ast)
+        if k_ == "isnone" and s_ == "self._frame":
+            return "T" if pos_ else "F"
+        return None
+    handlers = [n for n in cfg.nodes if n.kind == "except" and any(s_.ast is x for s_ in stores for x in ast.walk(n.ast))]
+    p = kit.path_avoiding_guard(cfg, stores, unset, N, sources=handlers) if handlers else None
+    R.check(p is None and bool(kit.guard_edges_exist(cfg, unset)), rule, step.qualname + ":own-frame", R.site(step, stores[0].ast),
+            "the handler records the traceback's innermost frame only when no frame was recorded before the throw",
+            "the handler overwrites the frame recorded before an error was thrown in with the innermost frame of the traceback: for a task that failed by "
+            "letting a delivered error through, that is the frame of whoever raised it - format_asynq_stack() in a task created by it lists the raiser "
+            "instead of the creating task", cfg.fmt_path(p) if p else None)
